@@ -18,6 +18,13 @@ for p in props:
     pid = p['id']
     if pid in built and pid in T:
         tech, text, note, ref = T[pid]['technique'], T[pid]['text'], T[pid]['note'], T[pid]['ref']
+        try:
+            ev = json.load(open(f'/verif/evidence/{pid}.json'))
+            names = sorted({r.split(':', 1)[0] for r in ev['coverage'].get('rules', [])})
+            if names:
+                note = (note + '; ' if note else '') + 'rules evaluated (each documented in the evidence file): ' + ', '.join(names)
+        except Exception:
+            pass
         checks.append({
             'property_id': pid,
             'quick_cmd': f'./check.sh {pid} quick',
